@@ -34,7 +34,8 @@ RULE = ("mappings of 0-6 keys -> 0-4 values over arbitrary Unicode (JSON-structu
         "database, built with list/tuple values, other dialect, one column/value/key order changed), all ordered pairs. "
         "Non-trivial = the mapping has a scalar-set value or a non-ASCII/control/escape-worthy character (json, set, "
         "print, db), the arguments share a key (merge), the pool has equal distinct objects (eq); distinct by case content")
-REQUIRED = ["json: identities checked", "json: stdlib json decodes compared", "json: Feature(attributes=text) round trips",
+REQUIRED = ["alias: re-fetched features compared with the stored text", "alias: repeated decodes compared",
+            "alias: key-order pairs compared", "json: identities checked", "json: stdlib json decodes compared", "json: Feature(attributes=text) round trips",
             "json: mappings with lone surrogates", "merge: calls", "merge: calls while always_return_list=False", "merge: argument snapshots compared",
             "merge: keys judged in numeric order", "merge: keys judged in text order",
             "db: features read back", "db: raw JSON columns decoded with stdlib json", "db: reopened databases",
@@ -666,7 +667,85 @@ def run_print(ctx, case):
     drain(ctx, case)
 
 
-KINDS = {"json": run_json, "merge": run_merge, "db": run_db, "eq": run_eq, "set": run_set, "print": run_print}
+# ---------------------------------------------------------------------------------
+# kind alias: decoding the stored text again is not affected by edits made to an earlier result; equality follows the
+# printed line also for features that share the database's dialect object and differ only in key order
+# ---------------------------------------------------------------------------------
+def run_alias(ctx, case):
+    import gffutils
+    from gffutils import helpers
+    from gffutils.feature import Feature
+
+    lines = case["lines"]
+    db = None
+    try:
+        try:
+            db = gffutils.create_db("\n".join(lines), ":memory:", from_string=True, keep_order=False)
+            ids = [f.id for f in db.all_features()]
+            raw = {r[0]: r[1] for r in db.conn.execute("SELECT id, attributes FROM features")}
+            stored = {i: [[k, list(v)] for k, v in json.loads(raw[i], object_pairs_hook=list)] for i in ids}
+            for fid in ids:
+                a = db[fid]
+                keys = list(a.attributes.keys())
+                if not keys:
+                    continue
+                # in-place edits of the value lists of a fetched feature
+                a.attributes[keys[0]].append("edited-in-place")
+                if len(keys) > 1 and a.attributes[keys[-1]]:
+                    a.attributes[keys[-1]][0] = "overwritten-in-place"
+                for other in ids:
+                    b = db[other]
+                    got = [[k, list(b.attributes[k])] for k in b.attributes.keys()]
+                    ctx.mon("alias: re-fetched features compared with the stored text")
+                    if got != stored[other]:
+                        ctx.violation(case, {"why": "a feature fetched again carries an earlier in-place edit instead of the stored values",
+                                             "edited": fid, "fetched": other, "got": got, "stored": stored[other]})
+                        return
+                t1 = helpers._unjsonify(raw[fid], isattributes=True)
+                t1[keys[0]].append("x")
+                t2 = helpers._unjsonify(raw[fid], isattributes=True)
+                g = Feature(seqid="c", start=1, end=2, attributes=raw[fid])
+                for name, obj in (("_unjsonify", t2), ("Feature(attributes=text)", g.attributes)):
+                    got = [[k, list(obj[k])] for k in obj.keys()]
+                    ctx.mon("alias: repeated decodes compared")
+                    if got != stored[fid]:
+                        ctx.violation(case, {"why": "decoding the stored JSON text again (%s) is affected by an edit of an earlier result" % name,
+                                             "got": got, "stored": stored[fid]})
+                        return
+            # same attributes, different key order, same dialect object
+            for fid in ids:
+                g, h = db[fid], db[fid]
+                keys = list(h.attributes.keys())
+                if len(keys) < 2:
+                    continue
+                v = h.attributes[keys[0]]
+                del h.attributes[keys[0]]
+                h.attributes[keys[0]] = v
+                for x, y in ((g, h), (h, g)):
+                    same = str(x) == str(y)
+                    e, ne = (x == y), (x != y)
+                    ctx.mon("alias: key-order pairs compared")
+                    why = None
+                    if bool(e) != same:
+                        why = "(a == b) is %r but the printed lines are %s" % (e, "equal" if same else "different")
+                    elif bool(ne) != (not e):
+                        why = "(a != b) is %r while (a == b) is %r" % (ne, e)
+                    elif e and hash(x) != hash(y):
+                        why = "a == b but hash(a) != hash(b)"
+                    if why:
+                        ctx.violation(case, {"why": why + " (same database, same attributes, different key order)", "a": str(x), "b": str(y)})
+                        return
+        except Exception as ex:
+            ctx.violation(case, {"why": "alias case raised %s" % type(ex).__name__, "exception": repr(ex)})
+            contracts.drain()
+            return
+    finally:
+        if db is not None:
+            db.conn.close()
+    drain(ctx, case)
+
+
+KINDS = {"json": run_json, "merge": run_merge, "db": run_db, "eq": run_eq, "set": run_set, "print": run_print, "alias": run_alias}
 
 
 # ---------------------------------------------------------------------------------
@@ -761,6 +840,19 @@ def run(ctx):
         case = {"kind": "eq", "pool": G.pool(rng), "switch": rng.random() < 0.8}
         execute(ctx, case)
         ctx.case(case, True, cls="eq pool")
+    # 4b. aliasing between decodes of one stored text; equality under a shared dialect object
+    for _ in range(ctx.budget(300, 9600)):
+        n = rng.randrange(1, 5)
+        shared = rng.random() < 0.5
+        common = ";".join("%s=%s" % (k, ",".join(v)) for k, v in [("Note", ["n1", "n2"]), ("Alias", ["a"]), ("tag", ["t%d" % rng.randrange(3)])])
+        lines = []
+        for i in range(n):
+            extra = common if shared else ";".join("k%d=v%d,w%d" % (j, j, rng.randrange(9)) for j in range(rng.randrange(1, 4)))
+            # no ID attribute: features get generated keys, so several of them can hold byte-identical attribute text
+            lines.append("chr1\tsrc\tgene\t%d\t%d\t.\t+\t.\t%s" % (10 * i + 1, 10 * i + 5, extra))
+        case = {"kind": "alias", "lines": lines}
+        execute(ctx, case)
+        ctx.case(case, True, sample=case if rng.random() < 0.02 else None, cls="alias shared-text" if shared else "alias")
     # 5. setting values, both switch settings (everything but the printed line)
     for _ in range(ctx.budget(12000, 240000)):
         case = gen_set_case(rng, "set")
